@@ -3,8 +3,10 @@ package props
 import (
 	"bytes"
 	"fmt"
+	"reflect"
 	"strings"
 	"time"
+	"unsafe"
 
 	"github.com/robfig/soy"
 	"github.com/robfig/soy/soyhtml"
@@ -45,6 +47,21 @@ func compileBundle(names, srcs []string, globals map[string]ref.Value) (c *compi
 			}
 		}
 		reg, e := b.Compile()
+		// a bundle may be compiled more than once (Compile for the JavaScript generator, CompileToTofu
+		// for the renderer): the second result must be the first one again
+		if recompileCheck {
+			tofu2, e2 := b.CompileToTofu()
+			switch {
+			case (e == nil) != (e2 == nil) || e != nil && e.Error() != e2.Error():
+				err = fmt.Errorf("%s the first Compile() returned %v, CompileToTofu() on the same bundle then returned %v", recompilePrefix, e, e2)
+				return
+			case e == nil && reg != nil:
+				if d1, d2 := registryShape(reg), registryShape(tofuRegistry(tofu2)); d1 != d2 {
+					err = fmt.Errorf("%s the templates differ between the first and the second compilation:\n %s\n %s", recompilePrefix, d1, d2)
+					return
+				}
+			}
+		}
 		if e != nil {
 			err = e
 			return
@@ -52,6 +69,39 @@ func compileBundle(names, srcs []string, globals map[string]ref.Value) (c *compi
 		c = &compiled{soyhtml.NewTofu(reg), reg}
 	})
 	return
+}
+
+// recompileCheck makes compileBundle compile every bundle a second time (set by the checks that judge
+// the compiler's decision: C07, C13).
+var recompileCheck bool
+
+const recompilePrefix = "compiling the same Bundle twice gives different results:"
+
+// tofuRegistry digs the registry out of a Tofu (an unexported field).
+func tofuRegistry(t *soyhtml.Tofu) *template.Registry {
+	if t == nil {
+		return nil
+	}
+	f := reflect.ValueOf(t).Elem().FieldByName("registry")
+	return (*template.Registry)(unsafe.Pointer(f.Pointer()))
+}
+
+// registryShape lists the templates of a registry with their declared params.
+func registryShape(reg *template.Registry) string {
+	if reg == nil {
+		return "<nil>"
+	}
+	var b strings.Builder
+	for _, t := range reg.Templates {
+		b.WriteString(t.Node.Name + "(")
+		if t.Doc != nil {
+			for _, p := range t.Doc.Params {
+				fmt.Fprintf(&b, "%s/%v ", p.Name, p.Optional)
+			}
+		}
+		b.WriteString(") ")
+	}
+	return b.String()
 }
 
 type renderResult struct {
